@@ -23,11 +23,18 @@ func RenameOutput(callable syntax.Callable,
 			modified[dec] = struct{}{}
 			if c.GetId() == callable.GetId() &&
 				c.File().FullPath == callable.File().FullPath {
-				edits = append(edits, renameCallableOutputEdit{
+				edit := renameCallableOutputEdit{
 					Callable: c,
 					OldParam: oldParam,
 					NewParam: newParam,
-				})
+				}
+				if pipe, ok := c.(*syntax.Pipeline); ok && pipe != nil &&
+					pipe.Ret != nil && pipe.Ret.Bindings != nil {
+					if b := pipe.Ret.Bindings.Table[oldParam]; b != nil {
+						edit.Exp = b.Exp
+					}
+				}
+				edits = append(edits, edit)
 			} else if pipe, ok := c.(*syntax.Pipeline); ok {
 				edits = renameOutputInCalls(callable,
 					oldParam, newParam, pipe, edits)
@@ -104,6 +111,9 @@ type (
 		Callable syntax.Callable
 		OldParam string
 		NewParam string
+		// What a pipeline returns for the output, in case a wildcard
+		// supplies it.
+		Exp syntax.Exp
 	}
 
 	updatePipelineRetain struct {
@@ -121,18 +131,19 @@ func (e renameCallableOutputEdit) Apply(ast *syntax.Ast) (int, error) {
 			count += e.applyOuts(callable.GetOutParams())
 			if pipe, ok := callable.(*syntax.Pipeline); ok &&
 				pipe != nil && pipe.Ret != nil && pipe.Ret.Bindings != nil {
-				for _, b := range pipe.Ret.Bindings.List {
-					if b.Id == e.OldParam {
-						if pipe.Ret.Bindings.Table != nil {
-							p, ok := pipe.Ret.Bindings.Table[e.OldParam]
-							if ok {
-								delete(pipe.Ret.Bindings.Table, e.OldParam)
-								pipe.Ret.Bindings.Table[e.NewParam] = p
-							}
+				if b, added := bindExplicitly(pipe.Ret.Bindings,
+					e.OldParam, e.NewParam, e.Exp); added {
+					count++
+				} else if b != nil {
+					if pipe.Ret.Bindings.Table != nil {
+						p, ok := pipe.Ret.Bindings.Table[e.OldParam]
+						if ok {
+							delete(pipe.Ret.Bindings.Table, e.OldParam)
+							pipe.Ret.Bindings.Table[e.NewParam] = p
 						}
-						b.Id = e.NewParam
-						count++
 					}
+					b.Id = e.NewParam
+					count++
 				}
 			}
 		}
